@@ -1491,6 +1491,7 @@ class Stream(AbstractStream):
         elif N_streams == 1:
             if energy_balance:
                 self.copy_like(streams[0])
+                if Q: self.H += Q
             elif self._imol.data.ndim == 2 and (self.chemicals is not streams[0].chemicals
                                                 or self.phases != streams[0].phases):
                 # Multi-phase copy_flow requires the same chemicals and copies phase rows by position
